@@ -59,3 +59,23 @@ fn c05_literal_decoders_total() {
   kani::cover!(a.is_some() && b.is_some() && c.is_some());
   kani::cover!(a.is_none());
 }
+
+/// "A length announced in a CBOR head is never trusted for allocation", for a *chunk* of an
+/// indefinite-length byte string: after one complete one-byte chunk (`41 xx`), a chunk head
+/// `5b` announcing any 64-bit length ≥ 1 with no payload following must make
+/// `read_bytes(None)` return Err — no panic from length arithmetic on the accumulated
+/// buffer, no allocation sized from the announced length.
+#[kani::proof]
+#[kani::unwind(4)]
+fn c05_alloc_indef_chunk() {
+  let a: u8 = kani::any();
+  let l: [u8; 8] = kani::any();
+  kani::assume(u64::from_be_bytes(l) >= 1);
+  let p: [u8; 11] = [0x41, a, 0x5b, l[0], l[1], l[2], l[3], l[4], l[5], l[6], l[7]];
+  let mut d = Decoder::from(&p[..]);
+  let r = cv::read_bytes(&mut d, None);
+  kani::cover!(u64::from_be_bytes(l) == u64::MAX);
+  kani::cover!(u64::from_be_bytes(l) == 1);
+  assert!(r.is_err());
+  core::mem::forget(r);
+}
